@@ -602,6 +602,14 @@ func (h *harness) doOp(p *procState, op Op) {
 	tr := h.u.mods[op.Mod]
 	ctx := context.Background()
 	var err error
+	// history oracle (write-once set): once any completed call or the observer has seen the
+	// version available, every later Fetch and FetchFromCache must find it, whatever faults follow
+	wasAvail := h.avail[op.Mod]
+	defer func() {
+		if wasAvail && err != nil {
+			h.fail("available-version-not-served", "process %d: %s(%v) failed although the version had already been reported available: %v", p.id, op.Kind, tr.mv, err)
+		}
+	}()
 	switch op.Kind {
 	case "fetch":
 		var loc module.SourceLoc
@@ -628,10 +636,11 @@ func (h *harness) doOp(p *procState, op Op) {
 				h.fail("fromcache-wrong-content", "process %d: FetchFromCache(%v) reported a directory that is not the module: %v", p.id, tr.mv, e)
 			}
 			h.avail[op.Mod] = true
-		} else if errors.Is(err, modregistry.ErrNotFound) {
+		} else if errors.Is(err, modregistry.ErrNotFound) && !wasAvail {
 			err = nil
 		}
 	case "modfile":
+		wasAvail = false // the module file is a separate artefact
 		mf, e := p.cache.ModFile(ctx, tr.mv)
 		err = e
 		if e == nil && mf.QualifiedModule() != tr.mv.Path() {
